@@ -34,7 +34,7 @@ CONSTANTS
 INVARIANT TraceInv
 """
 OPS = ["cumsum", "cumsum_na", "cummin", "cummax", "cumcount"]
-EMBS_Q = ["f64", "f32", "i64", "i64big", "i32", "u8", "bool", "M8ns", "m8ns", "M8s", "i8lo"]
+EMBS_Q = ["f64", "f32", "i64", "i64big", "u64big", "i32", "u8", "bool", "M8ns", "m8ns", "M8s", "i8lo"]
 EMBS_T = EMBS_Q + ["i8", "u64", "M8us", "m8s", "M8ns0", "i16lo", "i32lo"]
 
 
